@@ -15,8 +15,12 @@ import (
 func VerifAge(m *Memory, d time.Duration) {
 	m.mu.Lock()
 	defer m.mu.Unlock()
+	now := time.Now()
 	for _, i := range m.m {
 		i.created = i.created.Add(-d)
+		if d < 0 && i.created.After(now) {
+			i.created = now
+		}
 	}
 }
 
